@@ -147,6 +147,16 @@ def edit_cases():
     rz2["teams"][0]["workers"][1]["cost"] = 8.0
     rz2["workplaces"][0]["facilities"][0]["cost"] = 5.0
     out.append((rz, rz2, "set-rates"))
+    # a placed block that turns out bulkier than planned: its size is corrected at a stop; the next part no longer fits beside it and has to go to the other hall
+    gr = {"tasks": [{"name": "T0", "work": 9.0, "nf": True}, {"name": "T1", "work": 2.0, "nf": True, "wprule": "FSS"}, {"name": "T2", "work": 4.0}], "links": [[2, 1, "FS"]],
+          "components": [{"name": "C0", "tasks": [0], "space": 1.0}, {"name": "C1", "tasks": [1], "space": 2.0}],
+          "workplaces": [{"name": "WP0", "cap": 5.0, "targets": [0, 1], "facilities": [{"name": "F0", "skills": {"T0": 1.0}, "cost": 1.0}, {"name": "F1", "skills": {"T1": 1.0}, "cost": 1.0}]},
+                         {"name": "WP1", "cap": 3.0, "targets": [1], "facilities": [{"name": "F2", "skills": {"T1": 1.0}, "cost": 1.0}]}],
+          "teams": [{"name": "TM0", "targets": [0, 1, 2], "workers": [{"name": "W0", "skills": {"T0": 1.0}, "fskills": {"F0": 1.0}, "cost": 1.0},
+                                                                     {"name": "W1", "skills": {"T1": 1.0, "T2": 1.0}, "fskills": {"F1": 1.0, "F2": 1.0}, "cost": 1.0}]}]}
+    gr2 = copy.deepcopy(gr)
+    gr2["components"][0]["space"] = 3.5
+    out.append((gr, gr2, "resize-placed-component"))
     return out
 
 
@@ -253,6 +263,8 @@ def apply_edit(m, name):
     elif name == "untarget-running-task":
         m.byname["WP0"].targeted_task_list.remove(m.byname["T0"])
         m.byname["T0"].allocated_workplace_list.remove(m.byname["WP0"])
+    elif name == "resize-placed-component":
+        m.byname["C0"].space_size = 3.5
     elif name == "set-rates":
         m.byname["W1"].cost_per_time = 8.0
         m.byname["F0"].cost_per_time = 5.0
